@@ -27,7 +27,6 @@ RULE = ("instruction sequences (deposit incl. up-to-limit, withdraw / withdraw-a
         "fund-moving instructions; distinct = different case line")
 ASSUMPTIONS = [
     "initial world well-formed (HOk2): share values > 0, valid seven-point curve, transfer-fee bps <= 10000, program fee rate in [0,1], fee buckets representable, bank totals cover every position; preservation is proved (C01_wellformedness_preserved), histories with a bank wipe-out are covered by C01_history_given_wellformed_states for the surviving banks",
-    "liquidator and liquidatee are different accounts (the real program cannot load the same account mutably twice)",
     "token movement is modelled as balance arithmetic with the SPL Token-2022 transfer-fee function (TransferFee.v, compared with the real library in C03's prefee suite); the real SPL token programs run behind the CPI stub in the sim runtime",
     "pass-through banks of third-party venues (Kamino/Drift/Solend asset tags) are outside C01 (the property excludes them); the handlers reject them (WrongAssetTagForStandardInstructions)",
 ]
